@@ -15,51 +15,53 @@ variable {I K S : Type}
     the items — nothing lost, nothing duplicated, whatever the interleaving -/
 theorem conservation (cap : Nat) (items : List I) (n : Nat) (s : PState I) (R : PReach cap items n s) :
     (s.processed ++ s.queued ++ s.todo).Perm items := by
-  sorry
+  exact R.inv.perm
 
 /-- in a final state every item has been processed exactly once -/
 theorem exactly_once (cap : Nat) (items : List I) (n : Nat) (s : PState I) (R : PReach cap items n s)
     (hf : s.final) : s.processed.Perm items ∧ s.workers.length = n := by
-  sorry
+  exact R.exactly_once hf
 
 /-- no reachable non-final state is stuck (any n_workers ≥ 1, any capacity ≥ 1) -/
 theorem no_deadlock (cap : Nat) (hcap : 1 ≤ cap) (items : List I) (n : Nat) (hn : 1 ≤ n) (s : PState I)
     (R : PReach cap items n s) (hnf : ¬ s.final) : ∃ t, PStep cap s t := by
-  sorry
+  exact R.no_deadlock hcap hn hnf
 
 /-- every step decreases the measure, so every run terminates (in at most `measure init` steps) -/
 theorem step_decreases (cap : Nat) (s t : PState I) (h : PStep cap s t) : t.measure < s.measure := by
-  sorry
+  exact h.measure_lt
 
 /-- each worker stops exactly once: a worker that is done stays done and takes nothing more -/
 theorem done_stays (cap : Nat) (s t : PState I) (h : PStep cap s t) (w : Nat) (ws : WState I)
     (hw : s.workers[w]? = some ws) (hd : ws.done = true) : t.workers[w]? = some ws := by
-  sorry
+  exact h.done_stays w ws hw hd
 
 /-! ### pairwise merging -/
 
 /-- the rounds end with exactly one sketch for a non-empty array … -/
 theorem merging_some (merge : S → S → S) (l : List S) (hl : l ≠ []) :
     ∃ r, parallelMerging merge l = some r := by
-  sorry
+  obtain ⟨t, _, h⟩ := parallelMerging_tree merge l hl
+  exact ⟨_, h⟩
 
 /-- … which is the evaluation of a merge tree whose leaves are the workers' sketches in order:
     no sketch dropped (odd counts included), none merged twice -/
 theorem merging_tree (merge : S → S → S) (l : List S) (hl : l ≠ []) :
     ∃ t : MTree S, t.leaves = l ∧ parallelMerging merge l = some (t.eval merge) := by
-  sorry
+  exact parallelMerging_tree merge l hl
 
 /-- with an associative merge the result is the left fold -/
 theorem merging_assoc (merge : S → S → S) (hassoc : ∀ a b c, merge (merge a b) c = merge a (merge b c))
     (a : S) (l : List S) : parallelMerging merge (a :: l) = some (l.foldl merge a) := by
-  sorry
+  exact parallelMerging_assoc merge hassoc a l
 
 /-- record counts: the sum over workers of their `n_records` is the sum of the callback's return
     values over all items (raising items count 0) -/
 theorem records_total [DecidableEq I] (cap : Nat) (items : List I) (n : Nat) (s : PState I) (R : PReach cap items n s)
     (hf : s.final) (cb : I → Outcome K) :
     (s.workers.map fun w => workerRecords cb w.got).sum = workerRecords cb items := by
-  sorry
+  rw [workerRecords_workers]
+  exact workerRecords_perm cb (R.exactly_once hf).1
 
 /-- the operations applied across all workers are a permutation of the operations of the whole
     stream taken item by item (so true counts, cell loads and key sets agree with the sequential run) -/
@@ -67,14 +69,14 @@ theorem ops_total (cap : Nat) (items : List I) (n : Nat) (s : PState I) (R : PRe
     (hf : s.final) (cb : I → Outcome K) :
     ∃ perm : List I, perm.Perm items ∧
       (s.workers.flatMap fun w => workerOps cb w.got) = workerOps cb perm := by
-  sorry
+  exact ⟨s.processed, (R.exactly_once hf).1, workerOps_workers cb s.workers⟩
 
 /-- true counts of the union of the workers' histories = true counts of the sequential history -/
 theorem C08_hist [DecidableEq K] (cap : Nat) (items : List I) (n : Nat) (s : PState I) (R : PReach cap items n s)
     (hf : s.final) (cb : I → Outcome K) (k : K) :
     ((s.workers.map fun w => (histOfOps (workerOps cb w.got)).trueCount k).sum)
       = (histOfOps (workerOps cb items)).trueCount k := by
-  sorry
+  exact hist_total R hf cb k
 
 /-! non-vacuity: 3 workers (odd: the third sketch is carried and merged in round 2) -/
 example : parallelMerging (· ++ ·) [[1], [2], [3]] = some [1, 2, 3] := by decide
